@@ -1,6 +1,9 @@
 package props
 
 import (
+	"path/filepath"
+	"os/exec"
+	"os"
 	"bytes"
 	"crypto/sha256"
 	"fmt"
@@ -398,7 +401,7 @@ func c17Rounds(tier string) int {
 func init() {
 	core.Register(&core.Prop{
 		ID: "C17", Level: "exploration",
-		Rule: "each round runs in a fresh process (library defaults) with the verif yield points installed (Gosched or a seeded sub-millisecond sleep at the five interleaving windows; the hook order is logged on a global logical clock): " +
+		Rule: "each round runs in a fresh process (library defaults; every second round begins with a cold start: the process's very first calls into the reader, writer and formats packages - lookups, registrations, writes, parses - come from 12 goroutines released together (all making the same first call, or mixed), five fresh child processes per round) with the verif yield points installed (Gosched or a seeded sub-millisecond sleep at the five interleaving windows; the hook order is logged on a global logical clock): " +
 			"(a) every call of a fixed call set (sniff JSON / tag-value / garbage inputs; parse SPDX, CycloneDX and garbage; parse with reader options; write independent documents through writers built WithFormat(F) for 3 formats; one writer and one reader shared by all goroutines; default writer) is executed once sequentially, " +
 			"then G in {4,16,64} goroutines execute the calls concurrently while other goroutines churn both format registries on scratch keys; every concurrent result must equal the sequential one and a writer built WithFormat(F) must emit F; " +
 			"(a') 600 writes in a scratch format whose driver is being replaced concurrently by two distinguishable fake drivers: each write must be serialized and rendered by the same driver; " +
@@ -421,12 +424,58 @@ func init() {
 	})
 }
 
+// c17ColdStart runs the cold-start scenario in fresh child processes (only the first use of a process counts, so one
+// process gives one trial): `vcheck coldstart` releases 16 spinning goroutines at once.
+func c17ColdStart(c *core.C) bool {
+	// the trials run in a separate small binary: this one links the beta SPDX 3 driver, whose init() registers
+	// itself with the writer package and thereby initialises it before main starts - a process without a cold start
+	self, _ := os.Executable()
+	exe := filepath.Join(filepath.Dir(self), "vcold")
+	if strings.HasSuffix(self, "-race") {
+		exe += "-race"
+	}
+	if _, err := os.Stat(exe); err != nil {
+		c.Violatef("harness-cold-start-binary", nil, "no cold-start binary %s: %v", exe, err)
+		return false
+	}
+	trials := 5
+	for t := 0; t < trials; t++ {
+		cmd := exec.Command(exe, fmt.Sprint(c.R.Int63()))
+		out, err := cmd.CombinedOutput()
+		c.Evals(1)
+		c.Cover("cold-start-trials(fresh process each)")
+		text := strings.TrimSpace(string(out))
+		if _, exited := err.(*exec.ExitError); err != nil && !exited {
+			c.Violatef("harness-child", nil, "cold-start child not started: %v", err)
+			return false
+		}
+		if err != nil || !strings.HasSuffix(text, "COLD-OK") {
+			sig := "cold-start:failed"
+			if i := strings.Index(text, "COLD-FAIL "); i >= 0 {
+				sig = "cold-start:" + strings.SplitN(strings.SplitN(text[i+10:], "|", 2)[0], "(", 2)[0]
+			} else if strings.Contains(text, "fatal error") || strings.Contains(text, "panic:") {
+				sig = "cold-start:runtime-abort"
+			}
+			c.Violatef(sig, nil, "first use of the reader/writer packages from 12 goroutines at once (fresh process, trial %d): %s", t, text[max(0, len(text)-600):])
+			return false
+		}
+	}
+	return true
+}
+
+
 func c17Round(c *core.C) {
 	r := c.R
 	hl := &hookLog{}
 	verifhook.SetHandler(hl.handler(r.Int63()))
 	defer verifhook.SetHandler(nil)
 
+	// (0) cold start: the very first calls into the reader, writer and formats packages of this fresh process come
+	// from several goroutines at once (nothing of those packages has run yet, so whatever they set up lazily is set
+	// up under contention). Every lookup of a built-in format must succeed and every registration must stick.
+	if c.K%2 == 0 && !c17ColdStart(c) {
+		return
+	}
 	calls := c17Calls(r)
 	// (a) sequential oracle
 	expected := make([]string, len(calls))
